@@ -40,7 +40,14 @@ def setup(ctx):
                     with core.monitor_scope(), np.errstate(all="ignore"):
                         want = ref(np.array(x, dtype=float) if not np.iscomplexobj(x) else np.array(x))
                         fin = np.isfinite(want)
-                        ok = np.shape(r) == np.shape(want) and bool(np.all(np.abs(np.asarray(r)[fin] - want[fin]) <= atol + rtol * np.abs(want[fin])))
+                        # data handed over in single / half precision is answered in that precision (numpy's own rule): a few of its ulps
+                        xd = getattr(x, "dtype", None)
+                        slack = 0.0
+                        if xd is not None and np.dtype(xd).kind in "fiu" and np.dtype(xd).itemsize < 8:
+                            # ... and so is integer data of 8 / 16 bits, which numpy's transcendental functions answer in half / single precision
+                            slack = 64 * float(np.finfo(np.log10(np.ones(1, dtype=xd)).dtype).eps)
+                            slack = slack if slack > 1e-14 else 0.0
+                        ok = np.shape(r) == np.shape(want) and bool(np.all(np.abs(np.asarray(r, float)[fin] - want[fin]) <= atol + (rtol + slack) * np.abs(want[fin]) + slack))
                     ctx.check(f"{name}.value", ok, f"{name}({core.jsonable(x)}) returned {core.jsonable(r)}, reference {core.jsonable(want)}")
                 except Exception as e:
                     ctx.not_observed(f"{name}.value")
@@ -92,6 +99,19 @@ def w_db(ctx, rng, i):
         ctx.close("db.additive", U.db(xa * ya), U.db(X) + U.db(Y), rtol=0, atol=1e-9, msg="db(xy) != db(x)+db(y)")
         ctx.close("db.dbm_offset", U.dbm(X), U.db(X) + 30, rtol=0, atol=1e-10, msg="dbm(x) != db(x)+30")
         ctx.check("db.shape", np.shape(U.db(X)) == xa.shape and np.shape(U.idb(D)) == da.shape, "result shape differs from input shape")
+        # whole-number levels and powers stored in any integer or narrow float dtype (a table of attenuator settings in uint8, counts in
+        # uint16 ...): the value is what counts, the arithmetic must not happen in the carrier's dtype
+        if i % 3 == 0:
+            dt = [np.uint8, np.int8, np.uint16, np.int16, np.uint32, np.int32, np.uint64, np.int64, np.float32][(i // 3) % 9]      # (float16 is left out: 1e3 * x already overflows it — the carrier's own range, not the library's arithmetic)
+            lo_d = 0 if np.dtype(dt).kind == "u" else -100
+            di = rng.integers(lo_d, 101, n).astype(dt)
+            xi = rng.integers(1, 120, n).astype(dt)
+            tol = max(1e-12, 64 * float(np.finfo(np.log10(np.ones(1, dtype=dt)).dtype).eps)) if np.dtype(dt).itemsize < 8 else 1e-12     # numpy answers 8 / 16-bit data in half / single precision
+            ctx.close("db.dtypes", U.idb(di), 10.0 ** (di.astype(float) / 10), rtol=tol, msg=f"idb of an array of dtype {np.dtype(dt)}")
+            ctx.close("db.dtypes", U.idbm(di), 10.0 ** (di.astype(float) / 10 - 3), rtol=tol, msg=f"idbm of an array of dtype {np.dtype(dt)}")
+            ctx.close("db.dtypes", U.db(xi), 10 * np.log10(xi.astype(float)), rtol=tol, atol=tol, msg=f"db of an array of dtype {np.dtype(dt)}")
+            ctx.close("db.dtypes", U.dbm(xi), 10 * np.log10(xi.astype(float)) + 30, rtol=tol, atol=tol, msg=f"dbm of an array of dtype {np.dtype(dt)}")
+            ctx.close("db.dtypes", U.dbm(U.idbm(di)), di.astype(float), rtol=tol, atol=1e3 * tol, msg=f"dbm(idbm(y)) for y of dtype {np.dtype(dt)}")
         neg = -xa if xa.ndim == 0 else np.where(np.arange(xa.size).reshape(xa.shape) == int(rng.integers(xa.size)), -xa, xa)
         negv = float(neg) if form in ("scalar",) else (neg.tolist() if form in ("list",) else (tuple(neg.tolist()) if form == "tuple" else neg))
         if form == "npscalar":
